@@ -4,7 +4,7 @@
    consistency of the snapshot with the lane's state over several remotes, with and without a preceding
    link (implicit link), is checked on the real WriteTaskState and MapLane by correspondence + oracle
    (partial). *)
-From SwimV Require Import Model.Uplinks Proofs.UplinksProofs.
+From SwimV Require Import Model.Uplinks Proofs.UplinksProofs Model.ValuePipeline Proofs.ValuePipelineProofs.
 Open Scope N_scope.
 
 (* value lanes: the synced marker never overtakes the value waiting for that remote - both leave in one
@@ -35,3 +35,28 @@ Proof.
   intros kf ops HK h t q HIn Ha e He. pose proof (uplinks_tasks_justified kf ops HK h t HIn) as HT.
   unfold task_ok in HT. rewrite Ha in HT. destruct HT as (_ & HT). now apply HT.
 Qed.
+
+(* ---- the lane side of a value sync (Model/ValuePipeline.v) ---- *)
+
+(* a sync request is answered with the value the lane holds when it answers - so a value it held between the
+   request and the answer - addressed to the requester, and the synced marker follows it directly *)
+Theorem C03_value_sync_answer_is_current : forall l r rest,
+  vl_syncq l = r :: rest ->
+  snd (fst (vl_write l)) = [LSyncEvent r (vl_content l); LSynced r].
+Proof. exact sync_answer_is_current. Qed.
+
+(* while sync requests are waiting the lane writes no plain event: the snapshot is not overtaken *)
+Theorem C03_value_sync_before_event : forall l,
+  vl_syncq l <> [] -> forall a, In a (snd (fst (vl_write l))) -> forall b, a <> LEvent b.
+Proof. exact sync_before_event. Qed.
+
+(* and everything the remote is sent afterwards is again a view of the lane's history ending, at quiescence, in
+   its current value: the gap-free tail *)
+Theorem C03_value_tail_converges : forall init ops1 ops2 r,
+  let p1 := pexec (pipe0 init) ops1 in
+  let p2 := pexec (pipe0 init) (ops1 ++ ops2) in
+  Owes r p1 -> Forall (fun o => o <> PUnlink r) ops2 ->
+  vl_dirty (p_lane p2) = false ->
+  forall x, aget r (p_rems p2) = Some x -> v_home (r_up x) = true ->
+  last_opt (events_of (r_sent x)) = Some (vl_content (p_lane p2)).
+Proof. exact linked_remote_converges. Qed.
